@@ -28,7 +28,9 @@ Oracle (record-list model, written from the statement; it never looks at what cp
   values         loader.values always equals the fold of the delivered events that have left loader.future, none of
                  them later than h (nor at/after `upcoming`); at completion it equals the last value logged per
                  register, stamped with the real-time image of the record's time.
-  completes      the loader ends COMPLETE (never FAILED, never stuck) and then returns nothing more.
+  completes      the loader ends COMPLETE (never FAILED, never stuck) and then returns nothing more; a load() that
+                 consults the clock or opens files far more often than the history has lines (deterministic step
+                 bound, no wall clock) is reported as not returning.
 
 Every disagreement gets a root-cause signature computed from the *mechanism* observed through a pass-through
 subclass (which file each open() selected, strict or not; whether the loader sat AWAITING on a file before its
@@ -75,6 +77,8 @@ ASSUMPTIONS = [
     'delivered event is attributed to exactly one logged record); values are ints 0..65535',
     'the history is static during replay (no rotation while reading); timestamps never decrease',
     'the harness clock never goes backwards; it does not advance inside a load() call',
+    'step bound: one load() may consult the clock at most 40*(records+files)+200 times and call open() at most '
+    '3*files+8 times; beyond that it is reported as looping (the legitimate maximum is about 2 per line)',
     'trusted base: CPython gzip/bz2/lzma writers, time.gmtime rendering of damaged lines, Hypothesis',
 ]
 MIN_EVALUATIONS = {'quick': 3000, 'thorough': 100000}
@@ -497,36 +501,36 @@ def execute(case, m):
 
 
 def drive(case, m, tr, ld, one_load, h, end_t):
-    if True:
-        for si, step in enumerate(case['schedule'] or [{'op': 'add', 'ms': 0}]):
-            if si:
-                if step['op'] == 'add':
-                    h += int(step['ms'])
-                else:
-                    nr = next_release(m, h)
-                    h = h + 1000 if nr is None else max(h, nr + int(step.get('off', 0)))
-            one_load(h, step.get('limit'), step.get('upcoming'))
-            if not ld:
-                break
-        # tail: walk the rest of the history record by record (exact release instants and 3 s jumps alternate)
-        bound = 2 * (len(m.expected) + len(m.files)) + 8
-        k = 0
-        while ld and k < bound:
-            nr = next_release(m, h)
-            if nr is None:
-                h = max(h, end_t) + 1000
-            elif k % 2:
-                h = max(h, nr) + 3000
+    """the schedule, then a deterministic tail until the loader evaluates False; returns the last historical time."""
+    for si, step in enumerate(case['schedule'] or [{'op': 'add', 'ms': 0}]):
+        if si:
+            if step['op'] == 'add':
+                h += int(step['ms'])
             else:
-                h = max(h, nr)
-            one_load(h, None, None)
-            k += 1
-        for _ in range(3):
-            if not ld:
-                break
-            h = max(h, end_t) + m.la + 10000
-            one_load(h, None, None)
-        return h
+                nr = next_release(m, h)
+                h = h + 1000 if nr is None else max(h, nr + int(step.get('off', 0)))
+        one_load(h, step.get('limit'), step.get('upcoming'))
+        if not ld:
+            break
+    # tail: walk the rest of the history record by record (exact release instants and 3 s jumps alternate)
+    bound = 2 * (len(m.expected) + len(m.files)) + 8
+    k = 0
+    while ld and k < bound:
+        nr = next_release(m, h)
+        if nr is None:
+            h = max(h, end_t) + 1000
+        elif k % 2:
+            h = max(h, nr) + 3000
+        else:
+            h = max(h, nr)
+        one_load(h, None, None)
+        k += 1
+    for _ in range(3):
+        if not ld:
+            break
+        h = max(h, end_t) + m.la + 10000
+        one_load(h, None, None)
+    return h
 
 
 # ------------------------------------------------------------------------------------------------
